@@ -189,3 +189,242 @@ def gen_tables(rng: random.Random, n_dec=None, max_lines=4, max_ds=4, aliases=Tr
     if rng.random() < 0.3:
         rng.shuffle(doc)
     return doc, {"dec": dec, "stable": stable, "aliases": alias}
+
+
+# ----------------------------------------------------------------------------- full .dec documents
+NUM_FORMS = ["1", "1.", ".5", "-0.8", "+3", "20.e12", "2E-4", "0.5", "1.0", "0", "-1", "3.14159", "1e-5", "0.507e12", "12", "-.25", "+1.5E+2"]
+WORD_PARAMS = ["DtoKpipipi_v1", "x1", "dm", "beta", "Vub", "my_par", "fD", "a/b", "q(1)", "w'", "z~", "A*B"]
+
+
+def rand_params(rng: random.Random, defined=(), max_n=6):
+    """a model parameter list: numerals in every literal form, words, Define'd names, -name; obeying the lexing
+    rules of the grammar (a word does not start like a number; no PHOTOS/model name right after a numeral)"""
+    n = rng.randint(1, max_n)
+    out = []
+    for _ in range(n):
+        r = rng.random()
+        if r < 0.55:
+            out.append(["num", rng.choice(NUM_FORMS)])
+        elif r < 0.75 and defined:
+            d = rng.choice(list(defined))
+            out.append(["word", ("-" + d) if rng.random() < 0.3 else d])
+        else:
+            w = rng.choice(WORD_PARAMS)
+            out.append(["word", ("-" + w) if rng.random() < 0.15 else w])
+    return out
+
+
+def rand_model(rng: random.Random, defined=(), aliases=(), all_models=False):
+    if aliases and rng.random() < 0.3:
+        return ["alias", rng.choice(list(aliases))]
+    name = rng.choice(known_models()) if (all_models or rng.random() < 0.5) else rng.choice(["PHSP", "VSS", "HELAMP", "SVS", "VSS_BMIX", "SSD_CP"])
+    return ["named", name, rand_params(rng, defined) if rng.random() < 0.5 else None]
+
+
+def gen_doc(rng: random.Random, n_blocks=None, globals_p=0.5, cc=True, copies=True, model_aliases=True, defines=True,
+            repeats=True, real_names=0.6):
+    """a document over the whole statement language.  Returns (doc, info)"""
+    n_blocks = n_blocks if n_blocks is not None else rng.randint(0, 8)
+    ev = [n for n in evtgen_names() if safe_label(n)]
+    pool = []
+    while len(pool) < 14:
+        c = rng.choice(ev) if rng.random() < real_names else rng.choice(safe_names(rng, 3, synthetic=0.6))
+        if c not in pool:
+            pool.append(c)
+    ident = ["dm", "x1", "beta", "Vub", "my_par", "fD", "dGamma", "mass_B", "q2"]
+    defined = rng.sample(ident, rng.randint(0, 4)) if defines else []
+    malias = rng.sample(["MyModel", "SLBKPOLE_DtoKlnu", "BMIX", "M2", "AliasX"], rng.randint(0, 3)) if model_aliases else []
+    stmts = []
+    for d in defined:
+        for _ in range(1 if rng.random() < 0.8 else 2):   # redefinitions: the last one wins
+            stmts.append(["define", d, rng.choice(NUM_FORMS)])
+    for a in malias:
+        for _ in range(1 if rng.random() < 0.85 else 2):
+            stmts.append(["model_alias", a, ["named", rng.choice(["VSS_BMIX", "SLBKPOLE", "HELAMP", "PHSP", "ISGW2"]),
+                                             rand_params(rng, defined) if rng.random() < 0.7 else None]])
+    mothers = []
+    blocks = []
+    for b in range(n_blocks):
+        if repeats and mothers and rng.random() < 0.2:
+            m = rng.choice(mothers)
+            if rng.random() < 0.4:
+                # byte-identical repetition of an earlier block
+                prev = [x for x in blocks if x[1] == m][0]
+                blocks.append(["decay", m, [list(l) for l in prev[2]]])
+                continue
+        else:
+            m = rng.choice(pool)
+        mothers.append(m)
+        lines = []
+        for _ in range(rng.randint(0 if rng.random() < 0.12 else 1, 5)):
+            ds = [rng.choice(pool) for _ in range(rng.randint(0 if rng.random() < 0.05 else 1, 5))]
+            lines.append([rng.choice(NUM_FORMS[:4] + BF_CHOICES), ds, rng.random() < 0.25, rand_model(rng, defined, malias, all_models=rng.random() < 0.5)])
+        blocks.append(["decay", m, lines])
+    stmts += blocks
+    if cc:
+        for _ in range(rng.randint(0, 3)):
+            a, b = rng.sample(pool, 2)
+            stmts.append(["alias", a, b])
+        for _ in range(rng.randint(0, 2)):
+            a, b = rng.sample(pool, 2)
+            stmts.append(["chargeconj", a, b])
+        used = set()
+        for _ in range(rng.randint(0, 3)):
+            x = rng.choice(pool + ["anti-" + p for p in pool[:2]])
+            if x not in used and safe_label(x):
+                used.add(x)
+                stmts.append(["cdecay", x])
+    if copies:
+        for _ in range(rng.randint(0, 2)):
+            new = rng.choice(pool + ["Copy1", "MyCopy"])
+            old = rng.choice(mothers or pool)
+            stmts.append(["copydecay", new, old])
+    if rng.random() < globals_p:
+        for _ in range(rng.randint(0, 6)):
+            k = rng.choice(["particle_def", "pythia", "jetset", "ls_def", "inc_factor", "setlsbw", "setlspw", "changemasslimit", "global_photos"])
+            n = rng.choice(pool)
+            if k == "particle_def":
+                stmts.append([k, n, rng.choice(["1.5", "0.13957", "5.279", "1"]), [rng.choice(["0.1", "1e-3", "0"])] if rng.random() < 0.6 else None])
+            elif k == "pythia":
+                stmts.append([k, rng.choice(["PythiaGenericParam", "PythiaAliasParam", "PythiaBothParam"]), rng.choice(["ParticleDecays", "StringZ", "A"]),
+                              rng.choice(["mixB", "usePowerLaw", "b"]), rng.choice([["word", "off"], ["word", "on"], ["num", "0.5"], ["num", "1"], ["word", "inf"], ["word", "x9"]])])
+            elif k == "jetset":
+                stmts.append([k, f"{rng.choice(['PARJ', 'MSTJ', 'MSTU'])}({rng.randint(1, 99)})", rng.choice(["0.36", "12", "1", "-3", "2E-4", "+7"])])
+            elif k == "ls_def":
+                stmts.append([k, rng.choice(["LSFLAT", "LSNONRELBW", "LSMANYDELTAFUNC"]), n])
+            elif k == "inc_factor":
+                stmts.append([k, rng.choice(["IncludeBirthFactor", "IncludeDecayFactor"]), n, rng.random() < 0.5])
+            elif k == "setlsbw":
+                stmts.append([k, n, rng.choice(["0.0", "3.0", "1"])])
+            elif k == "setlspw":
+                stmts.append([k, n, rng.choice(pool), rng.choice(pool), str(rng.randint(0, 3))])
+            elif k == "changemasslimit":
+                stmts.append([k, rng.choice(["ChangeMassMin", "ChangeMassMax"]), n, rng.choice(["1.1", "0.5", "2"])])
+            else:
+                stmts.append([k, rng.random() < 0.5])
+    # position: definitions may be anywhere relative to the blocks
+    if rng.random() < 0.7:
+        rng.shuffle(stmts)
+    return stmts, {"pool": pool, "mothers": mothers, "defined": defined, "model_aliases": malias}
+
+
+# ----------------------------------------------------------------------------- layouts
+COMMENTS = ["# a comment", "#", "#Decay X", "# End", "#;", "# 0.5 K+ K- PHSP;", "#\ttabbed  ", "# Enddecay"]
+
+
+class Layout:
+    """random semantics-preserving layout of a statement list (only edits named by property C02)"""
+
+    def __init__(self, rng: random.Random, crlf=None, comments=True, wrap=True, commas=True, semis=True, indent=True, blank_lines=True):
+        self.rng = rng
+        self.crlf = rng.random() < 0.3 if crlf is None else crlf
+        self.comments, self.wrap, self.commas, self.semis, self.indent, self.blank_lines = comments, wrap, commas, semis, indent, blank_lines
+
+    def gap(self):
+        r = self.rng
+        return r.choice([" ", " ", "  ", "\t", "   ", " \t "])
+
+    def nl(self):
+        return "\r\n" if self.crlf else "\n"
+
+    def eol(self):
+        """end of a statement: optional trailing blanks / comment, one or more line ends, blank or comment lines"""
+        r = self.rng
+        s = ""
+        if r.random() < 0.15:
+            s += self.gap()
+        if self.comments and r.random() < 0.2:
+            s += (self.gap() if r.random() < 0.7 else "") + r.choice(COMMENTS)
+        s += self.nl()
+        while self.blank_lines and r.random() < 0.25:
+            if self.comments and r.random() < 0.4:
+                s += (self.gap() if r.random() < 0.3 else "") + r.choice(COMMENTS)
+            elif r.random() < 0.3:
+                s += self.gap()
+            s += self.nl()
+        return s
+
+    def ind(self):
+        return self.gap() if (self.indent and self.rng.random() < 0.5) else ""
+
+    def model(self, m):
+        r = self.rng
+        if m[0] == "alias":
+            s = m[1]
+        else:
+            s = m[1]
+            if m[2] is not None:
+                items = [p[1] for p in m[2]]
+                for k, it in enumerate(items):
+                    sep = self.gap()
+                    if k > 0 and self.commas and r.random() < 0.2:
+                        sep = (self.gap() if r.random() < 0.5 else "") + "," + (self.gap() if r.random() < 0.7 else "")
+                        if it[0] in "+-." or it[0].isdigit():
+                            pass
+                    if self.wrap and r.random() < 0.15 and len(items) > 0:
+                        # wrap the parameter list: a line end (possibly after a comment) between items
+                        pre = sep if r.random() < 0.6 else ""       # the line end may follow the previous token directly
+                        sep = pre + ((r.choice(COMMENTS) if self.comments and r.random() < 0.3 else "")) + self.nl() + self.ind()
+                        # a continuation line must not be a lone 'End' line (it would be dropped by the multi-file constructor)
+                        if it == "End":
+                            sep = self.gap()
+                    s += sep + it
+        n = r.choice([1, 1, 1, 2, 3]) if self.semis else 1
+        s += ("" if r.random() < 0.5 else self.gap()) + ";"
+        for _ in range(n - 1):
+            s += ("" if r.random() < 0.5 else self.gap()) + ";"
+        return s
+
+    def stmt(self, st):
+        g = self.gap
+        k = st[0]
+        if k == "define":
+            return f"Define{g()}{st[1]}{g()}{st[2]}"
+        if k == "particle_def":
+            return f"Particle{g()}{st[1]}{g()}{st[2]}" + (f"{g()}{st[3][0]}" if st[3] else "")
+        if k == "pythia":
+            o = lambda: self.rng.choice(["", " ", "  "])
+            return f"{st[1]}{g()}{st[2]}{o()}:{o()}{st[3]}{o()}={o()}{st[4][1]}"
+        if k == "jetset":
+            o = lambda: self.rng.choice(["", " "])
+            return f"JetSetPar{g()}{st[1]}{o()}={o()}{st[2]}"
+        if k == "ls_def":
+            return f"{st[1]}{g()}{st[2]}"
+        if k == "inc_factor":
+            return f"{st[1]}{g()}{st[2]}{g()}{'yes' if st[3] else 'no'}"
+        if k == "setlsbw":
+            return f"BlattWeisskopf{g()}{st[1]}{g()}{st[2]}"
+        if k == "setlspw":
+            return f"SetLineshapePW{g()}{st[1]}{g()}{st[2]}{g()}{st[3]}{g()}{st[4]}"
+        if k == "cdecay":
+            return f"CDecay{g()}{st[1]}"
+        if k == "alias":
+            return f"Alias{g()}{st[1]}{g()}{st[2]}"
+        if k == "chargeconj":
+            return f"ChargeConj{g()}{st[1]}{g()}{st[2]}"
+        if k == "changemasslimit":
+            return f"{st[1]}{g()}{st[2]}{g()}{st[3]}"
+        if k == "global_photos":
+            return "yesPhotos" if st[1] else "noPhotos"
+        if k == "copydecay":
+            return f"CopyDecay{g()}{st[1]}{g()}{st[2]}"
+        if k == "model_alias":
+            return f"ModelAlias{g()}{st[1]}{g()}{self.model(st[2])}"
+        if k == "decay":
+            s = f"Decay{g()}{st[1]}" + self.eol()
+            for bf, ds, photos, model in st[2]:
+                s += self.ind() + bf + "".join(g() + d for d in ds) + (g() + "PHOTOS" if photos else "") + g() + self.model(model) + self.eol()
+            s += self.ind() + "Enddecay"
+            return s
+        raise ValueError(k)
+
+    def render(self, doc, end_line=None, leading=True):
+        r = self.rng
+        s = ""
+        if leading and self.blank_lines and r.random() < 0.3:
+            s += (r.choice(COMMENTS) if self.comments and r.random() < 0.5 else "") + self.nl()
+        for st in doc:
+            s += self.ind() + self.stmt(st) + self.eol()
+        if end_line if end_line is not None else r.random() < 0.3:
+            s += self.ind() + "End" + self.eol()
+        return s
